@@ -291,4 +291,356 @@ theorem model_geninv (s w : List ℚ) (hv : ValidW s w) (x : ℚ) (h0 : 0 < x) (
   · rw [← hp]; linarith
   · intro t ht; rw [← hp]; have := g2 t ht; linarith
 
+/-! ## the masses enter only through the comparisons "level ≤ cumulated mass"
+
+`SameCmp x M acc acc'`: along the value-sorted focal endpoints `M` (each carrying two masses `w`, `w'`) the two
+running sums compare the same way against the level `x`.  `nextQ_congr`: then the two lookups agree.
+`model_eq_nextQ_pos`: the executable model is `nextQ` also for a mass vector that does not sum to one exactly
+(binary64 cumsum ends at 1 ± a few ulp): positive masses, every cumulated sum but the last below one. -/
+
+abbrev T3 := ℚ × ℚ × ℚ
+
+def sort3 (l : List T3) : List T3 := l.mergeSort (fun a b => decide (a.1 ≤ b.1))
+def zip3 (s w w' : List ℚ) : List T3 := s.zip (w.zip w')
+def pi1 (t : T3) : ℚ × ℚ := (t.1, t.2.1)
+def pi2 (t : T3) : ℚ × ℚ := (t.1, t.2.2)
+
+def SameCmp (x : ℚ) : List T3 → ℚ → ℚ → Prop
+  | [], _, _ => True
+  | (_, w, w') :: r, acc, acc' => (x ≤ acc + w ↔ x ≤ acc' + w') ∧ SameCmp x r (acc + w) (acc' + w')
+
+theorem nextQ_congr (x : ℚ) (M : List T3) (acc acc' : ℚ) (h : SameCmp x M acc acc') :
+    nextQ (M.map pi1) acc x = nextQ (M.map pi2) acc' x := by
+  induction M generalizing acc acc' with
+  | nil => rfl
+  | cons t r ih =>
+    obtain ⟨s, w, w'⟩ := t
+    simp only [SameCmp] at h
+    simp only [List.map_cons, pi1, pi2, nextQ]
+    by_cases hx : x ≤ acc + w
+    · simp only [hx, h.1.mp hx, if_true]
+    · have hx' : ¬ x ≤ acc' + w' := fun c => hx (h.1.mpr c)
+      simp only [hx, hx', if_false]
+      exact ih _ _ h.2
+
+theorem zip3_pi1 (s w w' : List ℚ) (h : w.length = w'.length) : (zip3 s w w').map pi1 = s.zip w := by
+  induction s generalizing w w' with
+  | nil => simp [zip3]
+  | cons a s ih =>
+    cases w with
+    | nil => simp [zip3]
+    | cons b w =>
+      cases w' with
+      | nil => simp at h
+      | cons c w' =>
+        have := ih w w' (by simpa using h)
+        simp only [zip3, List.zip_cons_cons, List.map_cons, pi1] at this ⊢
+        rw [this]
+
+theorem zip3_pi2 (s w w' : List ℚ) (h : w.length = w'.length) : (zip3 s w w').map pi2 = s.zip w' := by
+  induction s generalizing w w' with
+  | nil => simp [zip3]
+  | cons a s ih =>
+    cases w with
+    | nil => cases w' with
+      | nil => simp [zip3]
+      | cons c w' => simp at h
+    | cons b w =>
+      cases w' with
+      | nil => simp at h
+      | cons c w' =>
+        have := ih w w' (by simpa using h)
+        simp only [zip3, List.zip_cons_cons, List.map_cons, pi2] at this ⊢
+        rw [this]
+
+theorem sort3_pi1 (s w w' : List ℚ) (h : w.length = w'.length) :
+    (sort3 (zip3 s w w')).map pi1 = sortByFst (s.zip w) := by
+  unfold sort3 sortByFst
+  have := List.map_mergeSort (r := fun a b : T3 => decide (a.1 ≤ b.1)) (s := fun a b : ℚ × ℚ => decide (a.1 ≤ b.1))
+    (f := pi1) (l := zip3 s w w') (fun a _ b _ => rfl)
+  rw [this, zip3_pi1 s w w' h]
+
+theorem sort3_pi2 (s w w' : List ℚ) (h : w.length = w'.length) :
+    (sort3 (zip3 s w w')).map pi2 = sortByFst (s.zip w') := by
+  unfold sort3 sortByFst
+  have := List.map_mergeSort (r := fun a b : T3 => decide (a.1 ≤ b.1)) (s := fun a b : ℚ × ℚ => decide (a.1 ≤ b.1))
+    (f := pi2) (l := zip3 s w w') (fun a _ b _ => rfl)
+  rw [this, zip3_pi2 s w w' h]
+
+/-! ### the executable model on masses that do not sum to one exactly -/
+
+/-- every cumulated sum except the last is below one -/
+def NonLastBelow : List (ℚ × ℚ) → ℚ → Prop
+  | [], _ => True
+  | [_], _ => True
+  | (_, w) :: y :: r, acc => acc + w < 1 ∧ NonLastBelow (y :: r) (acc + w)
+
+theorem firstGE_of_min (se : List (ℚ × ℚ)) (hs : se.Pairwise (fun a b => a.1 ≤ b.1)) (x ps qs : ℚ)
+    (hmem : (ps, qs) ∈ se) (hx : x ≤ ps) (hmin : ∀ e ∈ se, x ≤ e.1 → ps ≤ e.1)
+    (huniq : ∀ e ∈ se, x ≤ e.1 → e.1 ≤ ps → e.2 = qs) : firstGE se x = some qs := by
+  induction se with
+  | nil => simp at hmem
+  | cons a r ih =>
+    obtain ⟨p, q⟩ := a
+    rw [List.pairwise_cons] at hs
+    simp only [firstGE]
+    by_cases hxp : x ≤ p
+    · simp only [hxp, if_true, Option.some.injEq]
+      have h1 : ps ≤ p := hmin (p, q) (by simp) hxp
+      have h2 : p ≤ ps := by
+        rcases List.mem_cons.mp hmem with he | he
+        · simp only [Prod.mk.injEq] at he; rw [he.1]
+        · exact hs.1 _ he
+      exact huniq (p, q) (by simp) hxp h2
+    · simp only [hxp, if_false]
+      have hm : (ps, qs) ∈ r := by
+        rcases List.mem_cons.mp hmem with he | he
+        · simp only [Prod.mk.injEq] at he; rw [he.1] at hx; exact absurd hx hxp
+        · exact he
+      exact ih hs.2 hm (fun e he => hmin e (List.mem_cons_of_mem _ he))
+        (fun e he => huniq e (List.mem_cons_of_mem _ he))
+
+theorem cumW_gt (L : List (ℚ × ℚ)) (acc : ℚ) (hpos : ∀ p ∈ L, 0 < p.2) :
+    ∀ e ∈ (cumW L acc).map swap, acc < e.1 := by
+  induction L generalizing acc with
+  | nil => simp [cumW]
+  | cons p r ih =>
+    obtain ⟨s, w⟩ := p
+    have hw0 : 0 < w := hpos (s, w) (by simp)
+    intro e he
+    simp only [cumW, List.map_cons, swap, List.mem_cons] at he
+    rcases he with rfl | he
+    · simp; linarith
+    · have := ih (acc + w) (fun q hq => hpos q (List.mem_cons_of_mem _ hq)) e he
+      linarith
+
+theorem nextQ_min (L : List (ℚ × ℚ)) (acc x v : ℚ) (hpos : ∀ p ∈ L, 0 < p.2) (h : nextQ L acc x = some v) :
+    ∃ ps, (ps, v) ∈ (cumW L acc).map swap ∧ x ≤ ps ∧
+      (∀ e ∈ (cumW L acc).map swap, x ≤ e.1 → ps ≤ e.1) ∧
+      (∀ e ∈ (cumW L acc).map swap, x ≤ e.1 → e.1 ≤ ps → e.2 = v) := by
+  induction L generalizing acc with
+  | nil => simp [nextQ] at h
+  | cons p r ih =>
+    obtain ⟨s, w⟩ := p
+    have hposr : ∀ q ∈ r, 0 < q.2 := fun q hq => hpos q (List.mem_cons_of_mem _ hq)
+    simp only [nextQ] at h
+    by_cases hx : x ≤ acc + w
+    · simp only [hx, if_true, Option.some.injEq] at h
+      subst h
+      refine ⟨acc + w, by simp [cumW, swap], hx, ?_, ?_⟩
+      · intro e he _
+        simp only [cumW, List.map_cons, swap, List.mem_cons] at he
+        rcases he with rfl | he
+        · simp
+        · exact le_of_lt (cumW_gt r (acc + w) hposr e he)
+      · intro e he _ hle
+        simp only [cumW, List.map_cons, swap, List.mem_cons] at he
+        rcases he with rfl | he
+        · rfl
+        · exact absurd hle (not_le.mpr (cumW_gt r (acc + w) hposr e he))
+    · simp only [hx, if_false] at h
+      obtain ⟨ps, hm, hxp, hmin, huniq⟩ := ih (acc + w) hposr h
+      refine ⟨ps, by simp only [cumW, List.map_cons, List.mem_cons]; exact Or.inr hm, hxp, ?_, ?_⟩
+      · intro e he hxe
+        simp only [cumW, List.map_cons, swap, List.mem_cons] at he
+        rcases he with rfl | he
+        · exact absurd hxe hx
+        · exact hmin e he hxe
+      · intro e he hxe hle
+        simp only [cumW, List.map_cons, swap, List.mem_cons] at he
+        rcases he with rfl | he
+        · exact absurd hxe hx
+        · exact huniq e he hxe hle
+
+theorem nonlast_last (L : List (ℚ × ℚ)) (acc : ℚ) (h : NonLastBelow L acc) :
+    ∀ e ∈ (cumW L acc).map swap, ¬ e.1 < 1 → lastPt ((cumW L acc).map swap) = some e := by
+  induction L generalizing acc with
+  | nil => simp [cumW]
+  | cons p r ih =>
+    obtain ⟨s, w⟩ := p
+    cases r with
+    | nil =>
+      intro e he _
+      simp only [cumW, List.map_cons, List.map_nil, List.mem_singleton] at he
+      subst he; rfl
+    | cons y r' =>
+      simp only [NonLastBelow] at h
+      intro e he hge
+      obtain ⟨s', w'⟩ := y
+      simp only [cumW, List.map_cons, swap, List.mem_cons] at he
+      rcases he with rfl | he
+      · exact absurd h.1 hge
+      · have := ih (acc + w) h.2 e (by simpa [cumW, swap] using he) hge
+        simp only [cumW, List.map_cons] at this ⊢
+        rw [lastPt_cons_ne _ _ (by simp)]
+        exact this
+
+theorem lastPt_mem : ∀ (l : List (ℚ × ℚ)) (z : ℚ × ℚ), lastPt l = some z → z ∈ l
+  | [], z, h => by simp [lastPt] at h
+  | [a], z, h => by simp only [lastPt, Option.some.injEq] at h; subst h; simp
+  | a :: b :: r, z, h => by
+    have : lastPt (a :: b :: r) = lastPt (b :: r) := rfl
+    rw [this] at h
+    exact List.mem_cons_of_mem _ (lastPt_mem (b :: r) z h)
+
+theorem lastPt_some : ∀ (l : List (ℚ × ℚ)), l ≠ [] → ∃ z, lastPt l = some z
+  | [], h => absurd rfl h
+  | [a], _ => ⟨a, rfl⟩
+  | a :: b :: r, _ => by
+    have : lastPt (a :: b :: r) = lastPt (b :: r) := rfl
+    rw [this]; exact lastPt_some (b :: r) (by simp)
+
+theorem lastPt_ge : ∀ (l : List (ℚ × ℚ)) (z : ℚ × ℚ), l.Pairwise (fun a b => a.1 ≤ b.1) → lastPt l = some z →
+    ∀ e ∈ l, e.1 ≤ z.1
+  | [], z, _, h => by simp [lastPt] at h
+  | [a], z, _, h => by
+    simp only [lastPt, Option.some.injEq] at h; subst h
+    intro e he; simp at he; subst he; exact le_refl _
+  | a :: b :: r, z, hs, h => by
+    have : lastPt (a :: b :: r) = lastPt (b :: r) := rfl
+    rw [this] at h
+    rw [List.pairwise_cons] at hs
+    intro e he
+    rcases List.mem_cons.mp he with rfl | he
+    · exact hs.1 z (lastPt_mem _ _ h)
+    · exact lastPt_ge (b :: r) z hs.2 h e he
+
+theorem lastPt_append (l : List (ℚ × ℚ)) (z : ℚ × ℚ) : lastPt (l ++ [z]) = some z := by
+  induction l with
+  | nil => rfl
+  | cons a r ih =>
+    cases r with
+    | nil => rfl
+    | cons b r' =>
+      have : lastPt (a :: (b :: r') ++ [z]) = lastPt ((b :: r') ++ [z]) := rfl
+      rw [this]; exact ih
+
+/-- the lookup on any list of ecdf points with non-negative levels containing level 0: it returns the quantile
+of the unique point of smallest level `≥ x` -/
+theorem interpNext_of_min (E : List (ℚ × ℚ)) (x ps qs q0 : ℚ) (h0 : 0 < x)
+    (hz : (0, q0) ∈ E) (hmem : (ps, qs) ∈ E) (hx : x ≤ ps)
+    (hmin : ∀ e ∈ E, x ≤ e.1 → ps ≤ e.1) (huniq : ∀ e ∈ E, x ≤ e.1 → e.1 ≤ ps → e.2 = qs) :
+    interpNext E x = some qs := by
+  have hne : E ≠ [] := List.ne_nil_of_mem hz
+  have hperm := sortByFst_perm E
+  have hsorted := sortByFst_sorted E
+  have hsne : sortByFst E ≠ [] := by
+    intro h; have := hperm.length_eq; rw [h] at this
+    exact hne (List.eq_nil_of_length_eq_zero this.symm)
+  obtain ⟨zE, hzE⟩ := lastPt_some E hne
+  obtain ⟨zS, hzS⟩ := lastPt_some _ hsne
+  cases hE : E with
+  | nil => exact absurd hE hne
+  | cons a rE =>
+    cases hS : sortByFst E with
+    | nil => exact absurd hS hsne
+    | cons b rS =>
+      have hlo : b.1 ≤ 0 := by
+        have hb : (0, q0) ∈ sortByFst E := hperm.mem_iff.mpr hz
+        rw [hS] at hb hsorted
+        rw [List.pairwise_cons] at hsorted
+        rcases List.mem_cons.mp hb with he | he
+        · rw [← he]
+        · exact hsorted.1 _ he
+      have hhi : ps ≤ zS.1 := lastPt_ge _ zS hsorted hzS (ps, qs) (hperm.mem_iff.mpr hmem)
+      have hfirst : firstGE (sortByFst E) x = some qs :=
+        firstGE_of_min _ hsorted x ps qs (hperm.mem_iff.mpr hmem) hx
+          (fun e he => hmin e (hperm.mem_iff.mp he)) (fun e he => huniq e (hperm.mem_iff.mp he))
+      rw [hE] at hzE hzS hS hfirst
+      obtain ⟨ap, aq⟩ := a
+      obtain ⟨zEp, zEq⟩ := zE
+      obtain ⟨bp, bq⟩ := b
+      obtain ⟨zSp, zSq⟩ := zS
+      have c1 : ¬ x < bp := not_lt.mpr (by simp at hlo; linarith)
+      have c2 : ¬ zSp < x := not_lt.mpr (by simp at hhi; linarith)
+      rw [hS] at hzS hfirst
+      simp only [interpNext, hzE, hS, hzS, c1, c2, if_false]
+      exact hfirst
+
+theorem mem_ext3 (e a z : ℚ × ℚ) (C : List (ℚ × ℚ)) : e ∈ (a :: C) ++ [z] ↔ e = a ∨ e ∈ C ∨ e = z := by
+  simp
+
+/-- the executable model is `nextQ` on the value-sorted endpoints also when the masses do not sum to one
+exactly: positive masses, every cumulated sum but the last below one (the binary64 cumsum of masses that sum
+to one ends at `1 ± a few ulp`; `extend_ecdf` then appends level 1 with the last quantile) -/
+theorem model_eq_nextQ_pos (s w : List ℚ) (hpos : ∀ x ∈ w, 0 < x)
+    (hnl : NonLastBelow (sortByFst (s.zip w)) 0) (x v : ℚ) (h0 : 0 < x) (h1 : x ≤ 1)
+    (hq : nextQ (sortByFst (s.zip w)) 0 x = some v) :
+    ∃ e, getEcdf s w = some e ∧ interpNext (extendEcdf e) x = some v := by
+  have hposL : ∀ p ∈ sortByFst (s.zip w), 0 < p.2 := by
+    intro p hp
+    have hp' : p ∈ s.zip w := (sortByFst_perm _).mem_iff.mp hp
+    obtain ⟨a, b⟩ := p
+    exact hpos b (List.of_mem_zip hp').2
+  generalize hL : sortByFst (s.zip w) = L at hq hnl hposL
+  cases L with
+  | nil => simp [nextQ] at hq
+  | cons p0 r =>
+    obtain ⟨s0, w0⟩ := p0
+    refine ⟨(0, s0) :: (cumW ((s0, w0) :: r) 0).map swap, by simp only [getEcdf, hL], ?_⟩
+    set C := (cumW ((s0, w0) :: r) 0).map swap with hC
+    have hCne : C ≠ [] := by simp [hC, cumW]
+    obtain ⟨ps, hm, hxp, hmin, huniq⟩ := nextQ_min _ 0 x v hposL hq
+    obtain ⟨zl, hzl⟩ := lastPt_some C hCne
+    obtain ⟨T, ql⟩ := zl
+    have hlast : lastPt ((0, s0) :: C) = some (T, ql) := by rw [lastPt_cons_ne _ _ hCne, hzl]
+    have hCpos : ∀ e ∈ C, 0 < e.1 := cumW_gt _ 0 hposL
+    by_cases hT : T = 1
+    · -- no level appended
+      have hext : extendEcdf ((0, s0) :: C) = (0, s0) :: C := by
+        simp only [extendEcdf, ne_eq, not_true_eq_false, if_false, hlast, hT]
+      rw [hext]
+      apply interpNext_of_min _ x ps v s0 h0 (by simp) (List.mem_cons_of_mem _ hm) hxp
+      · intro e he hxe
+        rcases List.mem_cons.mp he with rfl | he
+        · simp at hxe; linarith
+        · exact hmin e he hxe
+      · intro e he hxe hle
+        rcases List.mem_cons.mp he with rfl | he
+        · simp at hxe; linarith
+        · exact huniq e he hxe hle
+    · have hext : extendEcdf ((0, s0) :: C) = ((0, s0) :: C) ++ [(1, ql)] := by
+        simp only [extendEcdf, ne_eq, not_true_eq_false, if_false, hlast, hT, not_false_eq_true, if_true]
+      rw [hext]
+      by_cases hps : ps ≤ 1
+      · -- the point found lies at or below level one: the appended level 1 comes later
+        have hps1 : ps < 1 := by
+          rcases lt_or_eq_of_le hps with h | h
+          · exact h
+          · exfalso
+            have := nonlast_last _ 0 hnl (ps, v) hm (by simp [h])
+            rw [← hC, hzl, Option.some.injEq, Prod.mk.injEq] at this
+            exact hT (this.1.trans h)
+        apply interpNext_of_min _ x ps v s0 h0 (by simp) ((mem_ext3 _ _ _ _).mpr (Or.inr (Or.inl hm))) hxp
+        · intro e he hxe
+          rw [mem_ext3] at he
+          rcases he with rfl | he | rfl
+          · simp at hxe; linarith
+          · exact hmin e he hxe
+          · simp; linarith
+        · intro e he hxe hle
+          rw [mem_ext3] at he
+          rcases he with rfl | he | rfl
+          · simp at hxe; linarith
+          · exact huniq e he hxe hle
+          · simp at hle; linarith
+      · -- the only cumulated sum reaching x overshoots one: it is the last, and level 1 carries its quantile
+        have hps1 : 1 < ps := not_le.mp hps
+        have hl := nonlast_last _ 0 hnl (ps, v) hm (by simp; linarith)
+        rw [← hC, hzl, Option.some.injEq, Prod.mk.injEq] at hl
+        obtain ⟨rfl, rfl⟩ := hl
+        apply interpNext_of_min _ x 1 ql s0 h0 (by simp) (by simp) h1
+        · intro e he hxe
+          rw [mem_ext3] at he
+          rcases he with rfl | he | rfl
+          · simp at hxe; linarith
+          · have := hmin e he hxe; linarith
+          · simp
+        · intro e he hxe hle
+          rw [mem_ext3] at he
+          rcases he with rfl | he | rfl
+          · simp at hxe; linarith
+          · have := hmin e he hxe; linarith
+          · rfl
+
 end Pun.Grid
